@@ -50,10 +50,10 @@ def families(b):
     names = ["a", "b", "c"]
     kws = [K(n) for n in names] + [K(n, ns=s) for s in names for n in names]
     syms = [S(n) for n in names] + [S(n, ns=s) for s in names for n in names]
-    vnum = [V(), V(1), V(2), V(1, 2), V(1, 3), V(2, 1), V(1, 2, 3), V(0.5), V(Fraction(1, 2)), V(None), V(1, None), V(None, 1), V(2, 0)]
+    vnum = [V(), V(1), V(2), V(1, 2), V(1, 3), V(2, 1), V(1, 2, 3), V(0.5), V(Fraction(1, 2)), V(None), V(1, None), V(None, 1), V(2, 0), V(None, 2), V(None, None), V(1, None, 2), V(1, None, 3), V(None, None, 1)]
     vkw = [V(K("b", ns="a")), V(K("a", ns="b")), V(K("b", ns="a"), K("a", ns="b")), V(K("a", ns="b"), K("b", ns="a")), V(K("a")), V(K("b")), V(K("a"), K("b")),
            V(K("b"), K("a")), V(K("a", ns="a")), V(K("a", ns="a"), K("a")), V(K("c", ns="a"), K("a", ns="c")), V(K("a", ns="c"), K("c", ns="a"))]
-    vstr = [V(), V(""), V("a"), V("b"), V("a", "b"), V("b", "a"), V("a", "a"), V("A"), V("a", None), V(None, "a"), V("ab"), V("a", "b", "c")]
+    vstr = [V(), V(""), V("a"), V("b"), V("a", "b"), V("b", "a"), V("a", "a"), V("A"), V("a", None), V(None, "a"), V("ab"), V("a", "b", "c"), V(None, "b"), V(None, None), V("a", None, "a"), V("a", None, "b")]
     vvec = [V(), V(V()), V(V(1)), V(V(2)), V(V(1), V(2)), V(V(2), V(1)), V(V(1, 2)), V(V(1), V(1)), V(V(None)), V(V(1, 2), V(0)), V(V(0), V(1, 2)), V(V(K("a")))]
     vvec = vvec[:-1]
     return {"num": nums, "str": strs, "kw": kws, "sym": syms, "vec-num": vnum, "vec-kw": vkw, "vec-str": vstr, "vec-vec": vvec}
@@ -285,14 +285,14 @@ def worker(spec, out):
                     v = v.numerator
                 nums.append(v)
             laws("num", nums)
-            vs = [b.vec.vector([rnd.choice([0, 1, 2, 0.5, Fraction(1, 2)]) for _ in range(rnd.randint(0, 3))]) for _ in range(9)]
+            vs = [b.vec.vector([rnd.choice([0, 1, 2, 0.5, Fraction(1, 2), None, None]) for _ in range(rnd.randint(0, 3))]) for _ in range(9)]
             laws("vec-num", vs)
-            vk = [b.vec.vector([K(rnd.choice("ab"), ns=rnd.choice(["a", "b", None])) for _ in range(rnd.randint(0, 3))]) for _ in range(9)]
+            vk = [b.vec.vector([(None if rnd.random() < 0.2 else K(rnd.choice("ab"), ns=rnd.choice(["a", "b", None]))) for _ in range(rnd.randint(0, 3))]) for _ in range(9)]
             laws("vec-kw", vk)
             if spec.get("random_only"):
                 ss = ["".join(rnd.choice("abAB\u00e9 \U0001F600z0") for _ in range(rnd.randint(0, 4))) for _ in range(10)]
                 laws("str", ss)
-                laws("vec-str", [b.vec.vector([rnd.choice(ss[:4]) for _ in range(rnd.randint(0, 3))]) for _ in range(9)])
+                laws("vec-str", [b.vec.vector([rnd.choice(ss[:4] + [None]) for _ in range(rnd.randint(0, 3))]) for _ in range(9)])
                 laws("vec-vec", [b.vec.vector([rnd.choice(vs[:5]) for _ in range(rnd.randint(0, 3))]) for _ in range(9)])
                 out.maybe_flush()
     elif kind == "sortperm":
